@@ -713,6 +713,9 @@ pub fn sched(args: &[String]) {
             None => random_sparse(&mut rng, max_extra),
         };
         FAMILY.with(|f| f.set(0));
+        // every other pawn storm starts a few plies before the move-count draw: the clocks of the tasks'
+        // private boards must stay in step, or one cache key gets two values
+        let root_hm: u64 = if pi % 4 == 3 { 93 + rng.below(5) as u64 } else { 0 };
         let mut b0 = pos.setup();
         let t0 = b0.turn();
         let nroot = MoveGenerator::with_cache_capacity(16).generate_moves(&mut b0, t0).len();
@@ -751,7 +754,7 @@ pub fn sched(args: &[String]) {
             let pool2 = pool.clone();
             let p2 = pos.clone();
             std::thread::spawn(move || {
-                let mut board = p2.setup();
+                let mut board = p2.setup_clocks(root_hm, 1);
                 let r = guarded(|| {
                     pool2.install(|| {
                         let mut ctx = SearchContext::new(depth);
@@ -789,13 +792,13 @@ pub fn sched(args: &[String]) {
             };
             outcomes.push(json!({"schedule": s, "strategy": s % 9, "steps": steps, "outcome": outcome}));
             if keep {
-                writeln!(file, "{}", json!({"t": "schedule", "pos": pos.to_json(), "depth": depth, "schedule": s, "strategy": s % 9, "nroot": nroot,
+                writeln!(file, "{}", json!({"t": "schedule", "pos": pos.to_json(), "hm": root_hm, "depth": depth, "schedule": s, "strategy": s % 9, "nroot": nroot,
                     "outcome": outcome, "events": log})).unwrap();
             }
         }
         // native mode: real pools of different sizes, scheduler off
         for &t in &native_pools {
-            let (res, _o, _c, score) = search_once(&pos, 0, depth, t, None);
+            let (res, _o, _c, score) = search_once(&pos, root_hm, depth, t, None);
             let outcome = if res["kind"] == "ok" { json!({"kind": "ok", "m": res["m"], "score": score}) } else { res.clone() };
             outcomes.push(json!({"schedule": format!("native{}", t), "outcome": outcome}));
             searches += 1;
@@ -821,11 +824,12 @@ pub fn native(args: &[String]) {
     'outer: for c in cases.as_array().unwrap() {
         let pos = crate::trace::parse_fen(c["fen"].as_str().unwrap());
         let depth = c["depth"].as_u64().unwrap() as u8;
+        let hm = c["hm"].as_u64().unwrap_or(0);
         let mut outcomes = vec![];
         for &t in &pools {
             for r in 0..(if t == 1 { 1 } else { reps }) {
                 marker(&json!({"fen": pos.fen(), "depth": depth, "threads": t}));
-                let (res, _o, _c, score) = search_once(&pos, 0, depth, t, None);
+                let (res, _o, _c, score) = search_once(&pos, hm, depth, t, None);
                 searches += 1;
                 let outcome = if res["kind"] == "ok" { json!({"kind": "ok", "m": res["m"], "score": score}) } else { res.clone() };
                 outcomes.push(json!({"schedule": format!("native{}#{}", t, r), "outcome": outcome}));
